@@ -84,7 +84,11 @@ func runC11(raw json.RawMessage, w *Writer) {
 			"used": Ev{"res": u["res"], "f": u["f"], "out": u["out"]}})
 	case "payload":
 		p := &codecs.VP8Payloader{EnablePictureID: c.PidOn}
-		codecs.VerifSetVP8PictureID(p, uint16(c.StartID))
+		if !codecs.VerifSetVP8PictureID(p, uint16(c.StartID)) && c.StartID != 0 {
+			// the verification accessor does not fit this implementation: only a fresh payloader (id 0) can be run
+			w.Emit(Ev{"ev": "unavailable"})
+			return
+		}
 		for k, fr := range c.Frames {
 			frame, fv := frameBytes(fr)
 			if fr.PidOn != nil {
